@@ -118,11 +118,14 @@ type fakeConn struct {
 	atGate   chan struct{}
 	parked   bool
 	gateOnce sync.Once
+	// closed when the read deadline is cleared (Listener.serve does that just before it hands the connection over)
+	cleared     chan struct{}
+	clearedOnce sync.Once
 }
 
 func newFake(stream []byte, evs []ev) *fakeConn {
 	return &fakeConn{rem: append([]byte(nil), stream...), evs: append([]ev(nil), evs...), closeCh: make(chan struct{}),
-		gate: make(chan struct{}), atGate: make(chan struct{})}
+		gate: make(chan struct{}), atGate: make(chan struct{}), cleared: make(chan struct{})}
 }
 
 func (c *fakeConn) open() { c.gateOnce.Do(func() { close(c.gate) }) }
@@ -218,6 +221,9 @@ func (c *fakeConn) SetReadDeadline(t time.Time) error {
 	defer c.mu.Unlock()
 	c.deadline = !t.IsZero()
 	c.timedOut = false
+	if t.IsZero() {
+		c.clearedOnce.Do(func() { close(c.cleared) })
+	}
 	return nil
 }
 func (c *fakeConn) SetWriteDeadline(t time.Time) error { return nil }
@@ -625,6 +631,168 @@ func runPairs(c *Ctx) {
 	}
 }
 
+// ---------------------------------------------------------------- services that accept late
+//
+// "Each connection reaches exactly one service": also when the services are slow to call
+// Accept.  More connections than the per-service queue holds (1024) are matched before either
+// service accepts one; afterwards every matched connection must come out of its service's
+// Accept exactly once, open, and every unmatched one must have been closed.  All waits are
+// for events (deadline cleared = the multiplexer is about to hand the connection over;
+// closed; accepted).
+
+func runSlowAccept(c *Ctx) {
+	var ns []int
+	for _, l := range c.CorpusLines() {
+		f := strings.Fields(l)
+		if len(f) == 3 && f[0] == "c19" && f[1] == "slowaccept" {
+			var n int
+			fmt.Sscanf(f[2], "%d", &n)
+			if n > 0 && n <= 20000 {
+				ns = append(ns, n)
+			}
+		}
+	}
+	if c.Replay == "" {
+		ns = append(ns, c.Budget(1300, 2600))
+	}
+	for _, n := range ns {
+		slowAccept(c, n)
+	}
+}
+
+// slowAccept: n connections (the first 1100 for the RTSP service, from 2600 on the next 1100
+// for the HTTP service, the rest mixed) are matched before any service accepts
+func slowAccept(c *Ctx, n int) {
+	root := &fakeRoot{ch: make(chan net.Conn), closed: make(chan struct{})}
+	l := listener.VerifNewFromListener(root)
+	l.SetReadTimeout(time.Hour)
+	rl := l.Match(rtsp.MatchRTSP())
+	hl := l.Match(listener.MatchHTTP())
+	go l.Serve()
+	defer root.Close()
+	lines := []struct{ line, want string }{
+		{"DESCRIBE rtsp://h/p RTSP/1.0\r\nCSeq: 1\r\n\r\n", "rtsp"},
+		{"GET /index.html HTTP/1.1\r\nHost: x\r\n\r\n", "http"},
+		{"OPTIONS * RTSP/1.0\r\nCSeq: 1\r\n\r\n", "rtsp"},
+		{"BREW /pot HTCPCP/1.0\r\n\r\n", "closed"},
+		{"POST /api HTTP/1.1\r\nContent-Length: 0\r\n\r\n", "http"},
+	}
+	type one struct {
+		fc   *fakeConn
+		want string
+		line string
+	}
+	conns := make([]one, n)
+	want := map[string]int{}
+	fail := func(class, impl, spec string) {
+		c.Find(Finding{Kind: "oracle", Class: class, Case: fmt.Sprintf("c19 slowaccept %d", n), Impl: impl, Spec: spec,
+			Detail: "services that call Accept only after all connections have been matched; the line replays the whole scenario"})
+	}
+	deadline := time.After(muxLongBudget)
+	for i := range conns {
+		// first more RTSP connections than the RTSP service's queue (1024) holds, then a mix;
+		// thorough tier: the HTTP queue overflows too
+		lc := lines[i%len(lines)]
+		switch {
+		case i < 1100:
+			lc = lines[[]int{0, 2}[i%2]]
+		case n >= 2600 && i < 2200:
+			lc = lines[[]int{1, 4}[i%2]]
+		}
+		conns[i] = one{newFake([]byte(lc.line), nil), lc.want, lc.line}
+		want[lc.want]++
+		select {
+		case root.ch <- conns[i].fc:
+		case <-deadline:
+			fail("connection-neither-delivered-nor-closed", fmt.Sprintf("Serve stopped accepting after %d connections while no service was accepting", i), "every connection is served")
+			return
+		}
+	}
+	// every connection is either closed or about to be handed over
+	for i := range conns {
+		select {
+		case <-conns[i].fc.cleared:
+		case <-conns[i].fc.closeCh:
+		case <-deadline:
+			fail("connection-neither-delivered-nor-closed", fmt.Sprintf("connection %d (%q) was neither matched nor closed", i, conns[i].line), conns[i].want)
+			return
+		}
+	}
+	// now the services start accepting
+	got := map[*fakeConn][]string{}
+	type accd struct {
+		svc string
+		c   net.Conn
+	}
+	ch := make(chan accd, n)
+	for _, p := range []struct {
+		n string
+		l net.Listener
+	}{{"rtsp", rl}, {"http", hl}} {
+		p := p
+		go func() {
+			for {
+				cn, err := p.l.Accept()
+				if err != nil {
+					return
+				}
+				ch <- accd{p.n, cn}
+			}
+		}()
+	}
+	need := want["rtsp"] + want["http"]
+	// a matched connection that is closed instead of being handed over is an event too
+	stop := make(chan struct{})
+	defer close(stop)
+	closedMatched := make(chan int, n)
+	for i := range conns {
+		if conns[i].want != "closed" {
+			go func(i int) {
+				select {
+				case <-conns[i].fc.closeCh:
+					closedMatched <- i
+				case <-stop:
+				}
+			}(i)
+		}
+	}
+	for k := 0; k < need; k++ {
+		select {
+		case i := <-closedMatched:
+			fail("route-closed-expected-"+conns[i].want, fmt.Sprintf("connection %d %q was matched and then closed instead of reaching the %s service (services accepting late)", i, conns[i].line, conns[i].want), conns[i].want)
+			return
+		case a := <-ch:
+			if lc, ok := a.c.(*listener.Conn); ok {
+				if fc, ok := lc.Conn.(*fakeConn); ok {
+					got[fc] = append(got[fc], a.svc)
+				}
+			}
+		case <-deadline:
+			fail("not-exactly-one-service", fmt.Sprintf("only %d of %d matched connections came out of Accept", k, need), "every matched connection reaches its service")
+			return
+		}
+	}
+	c.Eval(fmt.Sprintf("c19 slowaccept %d", n), true)
+	c.CountN("slowaccept-connections", n)
+	for i := range conns {
+		k := conns[i]
+		_, closed := k.fc.state()
+		switch {
+		case k.want == "closed":
+			if !closed || len(got[k.fc]) != 0 {
+				fail("route-"+strings.Join(got[k.fc], "+")+"-expected-closed", fmt.Sprintf("connection %d %q: delivered to %v closed=%v", i, k.line, got[k.fc], closed), "closed")
+				return
+			}
+		case len(got[k.fc]) != 1 || got[k.fc][0] != k.want:
+			fail("not-exactly-one-service", fmt.Sprintf("connection %d %q: delivered to %v", i, k.line, got[k.fc]), k.want+", once")
+			return
+		case closed:
+			fail("delivered-connection-closed", fmt.Sprintf("connection %d %q: delivered to %s and closed", i, k.line, k.want), "a delivered connection stays open")
+			return
+		}
+	}
+}
+
 // ---------------------------------------------------------------- generators
 
 var rtspOnly = []string{"DESCRIBE", "ANNOUNCE", "SETUP", "PLAY", "PAUSE", "TEARDOWN", "GET_PARAMETER", "SET_PARAMETER", "RECORD", "REDIRECT"}
@@ -907,6 +1075,7 @@ func run(c *Ctx) {
 	}
 	runMux(c)
 	runPairs(c)
+	runSlowAccept(c)
 	if c.Replay == "" {
 		runLoopback(c)
 	}
